@@ -783,7 +783,7 @@ def reference(src_or_fdef, funs=None, param_values=None):
         if isinstance(ann, ast.Subscript) and isinstance(ann.value, ast.Name) and ann.value.id == "Parameter":
             if param_values is None or a.arg not in param_values:
                 raise Unsupported("unbound parameter")
-            pre.append(ast.Assign(targets=[ast.Name(a.arg, ast.Store())], value=_lit(param_values[a.arg])))
+            pre.append(ast.Assign(targets=[ast.Name(a.arg, ast.Store())], value=_lit_typed(param_values[a.arg], parse_type(ann.slice))))
         else:
             keep.append(a)
     fdef.args.args = keep
@@ -810,6 +810,17 @@ def reference(src_or_fdef, funs=None, param_values=None):
     B = min(B, 64)
     it, want = run(B)
     return dict(args=[(a.arg, t) for a, t in zip(fdef.args.args, argt)], argbits=argbits, ret_type=rett, retbits=bit_names(rett, "_ret"), want=want, undef=it.undef, B=B, has_invert=any(isinstance(x, ast.Invert) for f in [fdef] + list((funs or {}).values()) for x in ast.walk(f)))
+
+
+def _lit_typed(v, t):
+    """literal for a compile-time parameter of declared type t: an integer is a value of the declared
+    Qint width (the specialised function computes with the parameter's type, not with the smallest
+    type that happens to hold the value)"""
+    if isinstance(v, (list, tuple)) and t[0] == "tuple" and len(t[1]) == len(v):
+        return ast.Tuple([_lit_typed(x, tt) for x, tt in zip(v, t[1])], ast.Load())
+    if t[0] == "int" and type(v) is int and 0 <= v < 2 ** t[1] and t[1] in QINT_SIZES and const_w(v) < t[1]:
+        return ast.Call(ast.Name("Qint%d" % t[1], ast.Load()), [ast.Constant(v)], [])
+    return _lit(v)
 
 
 def _lit(v):
